@@ -923,4 +923,364 @@ theorem rel_roundtrip (reg : Registry) (f : Forest) (ctx t : Nat) (a b : Path) (
     rw [hlen, ← hA, ← hB] at this
     exact this
 
+/-! ### a step that names nothing, at the level of `find` -/
+
+/-- Render absolute or relative. -/
+def render (abs : Bool) (parts : List String) : String := if abs then renderAbs parts else renderRel parts
+
+theorem splitOn_render_gen (abs : Bool) (parts : List String) (hne : parts ≠ [])
+    (h : ∀ s ∈ parts, '/' ∉ s.toList) :
+    (render abs parts).splitOn "/" = if abs then "" :: parts else parts := by
+  cases abs with
+  | true => simp [render, splitOn_renderAbs parts h]
+  | false => simp [render, splitOn_render parts hne h]
+
+theorem render_ne (abs : Bool) (parts : List String) (hne : parts ≠ [])
+    (h : ∀ s ∈ parts, '/' ∉ s.toList) (hrel : abs = false → parts.head? ≠ some "") : render abs parts ≠ "" := by
+  cases abs with
+  | true => simpa [render] using renderAbs_ne parts hne h
+  | false =>
+    cases parts with
+    | nil => exact absurd rfl hne
+    | cons first rest =>
+      have : first ≠ "" := by intro hf; exact hrel rfl (by simp [hf])
+      simpa [render] using renderRel_ne first rest this h
+
+theorem startOf_extend (reg : Registry) (start : Loc) (ctx : Nat) (abs : Bool) (pre more : List String)
+    (hne : pre ≠ []) (hrel : abs = false → pre.head? ≠ some "") :
+    startOf reg start ctx (if abs then "" :: (pre ++ more) else pre ++ more) =
+      (startOf reg start ctx (if abs then "" :: pre else pre)).map fun r => (r.1, r.2.1, r.2.2 ++ more) := by
+  cases pre with
+  | nil => exact absurd rfl hne
+  | cons first rest =>
+    cases abs with
+    | true =>
+      simp only [if_true, startOf_abs, List.cons_append, List.headD_cons]
+      rw [Option.map_map]; rfl
+    | false =>
+      have hf : first ≠ "" := by intro hf; exact hrel rfl (by simp [hf])
+      simp only [Bool.false_eq_true, if_false, List.cons_append]
+      rw [startOf_rel, startOf_rel]
+      · rfl
+      · intro parts h; simp only [List.cons.injEq] at h; exact hf h.1
+      · intro parts h; simp only [List.cons.injEq] at h; exact hf h.1
+
+/-- If the path up to some step reaches a node and the next step names no child of it, the
+lookup of the whole path (whatever follows) returns nothing. -/
+theorem absent_step (reg : Registry) (f : Forest) (start : Loc) (ctx : Nat) (abs : Bool)
+    (pre : List String) (bad : String) (post : List String) (loc : Loc) (f' : Forest) (e : Entry)
+    (hne : pre ≠ []) (hslash : ∀ s ∈ pre ++ bad :: post, '/' ∉ s.toList)
+    (hrel : abs = false → pre.head? ≠ some "")
+    (hreach : find reg f start ctx (render abs pre) = (some loc, f'))
+    (hnode : nodeAt f' loc = some e) (hbad : NamesNoChild e bad) :
+    (find reg f start ctx (render abs (pre ++ bad :: post))).1 = none := by
+  have hs1 : ∀ s ∈ pre, '/' ∉ s.toList := fun s hs => hslash s (List.mem_append_left _ hs)
+  have hne2 : pre ++ bad :: post ≠ [] := by simp
+  have hrel2 : abs = false → (pre ++ bad :: post).head? ≠ some "" := by
+    intro ha; cases pre with
+    | nil => exact absurd rfl hne
+    | cons a l => simpa using hrel ha
+  rw [find_eq_findParts _ _ _ _ _ (render_ne abs pre hne hs1 hrel), splitOn_render_gen abs pre hne hs1] at hreach
+  rw [find_eq_findParts _ _ _ _ _ (render_ne abs _ hne2 hslash hrel2), splitOn_render_gen abs _ hne2 hslash]
+  unfold findParts at hreach ⊢
+  rw [startOf_extend reg start ctx abs pre (bad :: post) hne hrel]
+  cases hst : startOf reg start ctx (if abs then "" :: pre else pre) with
+  | none => simp [hst] at hreach
+  | some r =>
+    obtain ⟨t, cur, ps⟩ := r
+    simp only [hst, Option.map_some] at hreach ⊢
+    cases htr : f.tree? t with
+    | none => simp [htr] at hreach
+    | some root =>
+      simp only [htr] at hreach ⊢
+      rw [walkParts_append]
+      cases hw : walkParts ps root (some cur) with
+      | mk r root1 =>
+        simp only [hw, Prod.mk.injEq] at hreach ⊢
+        obtain ⟨h1, h2⟩ := hreach
+        cases r with
+        | none => simp at h1
+        | some p =>
+          simp only [Option.map_some, Option.some.injEq] at h1
+          subst h1 h2
+          rw [nodeAt_setTree htr] at hnode
+          simp [walk_bad post hnode hbad]
+
+/-- The first step of a relative path names no child of the start node. -/
+theorem absent_first_rel (reg : Registry) (f : Forest) (start : Loc) (ctx : Nat)
+    (bad : String) (post : List String) (e : Entry)
+    (hslash : ∀ s ∈ bad :: post, '/' ∉ s.toList) (hb0 : bad ≠ "")
+    (hnode : nodeAt f start = some e) (hbad : NamesNoChild e bad) :
+    (find reg f start ctx (renderRel (bad :: post))).1 = none := by
+  unfold nodeAt at hnode
+  cases htr : f.tree? start.1 with
+  | none => simp [htr] at hnode
+  | some root =>
+    simp only [htr, Option.bind_some] at hnode
+    rw [find_rel_eq reg f start ctx _ bad post root (renderRel_ne bad post hb0 hslash)
+      (splitOn_render _ (by simp) hslash) hb0 htr]
+    simp [walk_bad post hnode hbad]
+
+/-- The first step of an absolute path names no child of the root of the tree it selects. -/
+theorem absent_first_abs (reg : Registry) (f : Forest) (start : Loc) (ctx : Nat)
+    (bad : String) (post : List String) (t : Nat) (root : Entry)
+    (hslash : ∀ s ∈ bad :: post, '/' ∉ s.toList)
+    (hsel : (if (splitPrefix bad).1 == "" then some start.1 else prefixTree reg ctx (splitPrefix bad).1) = some t)
+    (ht : f.tree? t = some root) (hbad : NamesNoChild root bad) :
+    (find reg f start ctx (renderAbs (bad :: post))).1 = none := by
+  rw [find_abs_eq reg f start ctx _ (bad :: post) t root (renderAbs_ne _ (by simp) hslash)
+    (splitOn_renderAbs _ hslash) (by simpa using hsel) ht]
+  simp [walk_bad post (show root.getAt [] = some root from rfl) hbad]
+
+/-- A first prefix that denotes no loaded module: nothing is found and nothing changes. -/
+theorem unknown_prefix (reg : Registry) (f : Forest) (start : Loc) (ctx : Nat) (parts : List String)
+    (hne : parts ≠ []) (hslash : ∀ s ∈ parts, '/' ∉ s.toList)
+    (hp : (splitPrefix (parts.headD "")).1 ≠ "")
+    (hsel : prefixTree reg ctx (splitPrefix (parts.headD "")).1 = none) :
+    find reg f start ctx (renderAbs parts) = (none, f) := by
+  rw [find_eq_findParts _ _ _ _ _ (renderAbs_ne parts hne hslash), splitOn_renderAbs parts hslash]
+  unfold findParts
+  rw [startOf_abs]
+  simp only [beq_iff_eq, hp, if_false, hsel, Option.map_none]
+
+/-- `..` above the root of a tree. -/
+theorem above_root (reg : Registry) (f : Forest) (t ctx : Nat) (post : List String)
+    (hslash : ∀ s ∈ post, '/' ∉ s.toList) :
+    (find reg f (t, []) ctx (renderRel (".." :: post))).1 = none := by
+  have hs : ∀ s ∈ ".." :: post, '/' ∉ s.toList := by
+    intro s h; rcases List.mem_cons.1 h with rfl | h
+    · decide
+    · exact hslash s h
+  rw [find_eq_findParts _ _ _ _ _ (renderRel_ne ".." post (by decide) hs), splitOn_render _ (by simp) hs]
+  unfold findParts
+  rw [startOf_rel _ _ _ _ (by intro parts h; simp at h)]
+  simp only
+  cases htr : f.tree? t with
+  | none => rfl
+  | some root =>
+    simp only
+    rw [walk_dotdot post (show root.getAt [] = some root from rfl)]
+    simp [walkParts_none]
+
+/-! ### frame -/
+
+/-- Whatever the path, the forest afterwards is the forest before with at most one tree replaced
+by a `Grown` version of itself. -/
+theorem frame (reg : Registry) (f : Forest) (start : Loc) (ctx : Nat) (name : String) :
+    (find reg f start ctx name).2 = f ∨
+    ∃ t root root', f.tree? t = some root ∧ Grown root root' ∧ (find reg f start ctx name).2 = f.setTree t root' := by
+  by_cases h0 : name = ""
+  · left; subst h0; simp [find]
+  · rw [find_eq_findParts _ _ _ _ _ h0]
+    unfold findParts
+    cases startOf reg start ctx (name.splitOn "/") with
+    | none => left; rfl
+    | some r =>
+      obtain ⟨t, cur, ps⟩ := r
+      simp only
+      cases htr : f.tree? t with
+      | none => left; rfl
+      | some root =>
+        right
+        exact ⟨t, root, _, htr, walkParts_grown ps root (some cur), rfl⟩
+
+/-! ### every node has a location (the design-round spike `Tree.lean`, on the real `Entry`) -/
+
+theorem distinct_find {l : List Entry} {k : Entry} (hm : k ∈ l) (hd : distinct (l.map (·.name)) = true) :
+    l.find? (·.name == k.name) = some k := by
+  induction l with
+  | nil => cases hm
+  | cons a l ih =>
+    simp only [List.map_cons, distinct, Bool.and_eq_true, Bool.not_eq_true', List.contains_eq_mem,
+      decide_eq_false_iff_not] at hd
+    rcases List.mem_cons.1 hm with rfl | h
+    · simp
+    · have hne : a.name ≠ k.name := by
+        intro heq; apply hd.1; rw [heq]; exact List.mem_map.2 ⟨k, h, rfl⟩
+      simp [hne, ih h hd.2]
+
+mutual
+theorem getAt_nodes (e : Entry) (hwf : wfKeys e = true) : ∀ px ∈ nodes e, e.getAt px.1 = some px.2 := by
+  match e with
+  | .mk d c i o =>
+    intro px hpx
+    have wf := wfKeys_node hwf
+    rw [nodes] at hpx
+    rcases List.mem_cons.1 hpx with rfl | h
+    · rfl
+    · rcases List.mem_append.1 h with h | h
+      · rcases List.mem_append.1 h with h | h
+        · exact getAt_nodesDir d c i o c wf.distinct (fun _ h => h) ((wfKeysL_iff c).2 wf.dir) px h
+        · exact getAt_nodesSlot d c i o true i rfl ((wfKeysL_iff i).2 wf.inp) px h
+      · exact getAt_nodesSlot d c i o false o rfl ((wfKeysL_iff o).2 wf.out) px h
+theorem getAt_nodesDir (d : EData) (all i o : List Entry) (ks : List Entry)
+    (hd : distinct (all.map (·.name)) = true) (hsub : ∀ k ∈ ks, k ∈ all) (hwf : wfKeysL ks = true) :
+    ∀ px ∈ nodesDir ks, (Entry.mk d all i o).getAt px.1 = some px.2 := by
+  match ks with
+  | [] => intro px h; simp [nodesDir] at h
+  | k :: rest =>
+    intro px h
+    rw [nodesDir] at h
+    simp only [wfKeysL, Bool.and_eq_true] at hwf
+    rcases List.mem_append.1 h with h1 | h2
+    · obtain ⟨qy, hqy, rfl⟩ := List.mem_map.1 h1
+      have hk : k ∈ all := hsub k (List.mem_cons_self ..)
+      simp only [Entry.getAt, Entry.child?, Entry.dir, distinct_find hk hd, Option.bind_some]
+      exact getAt_nodes k hwf.1 qy hqy
+    · exact getAt_nodesDir d all i o rest hd (fun k hk => hsub k (List.mem_cons_of_mem _ hk)) hwf.2 px h2
+theorem getAt_nodesSlot (d : EData) (c i o : List Entry) (isIn : Bool) (l : List Entry)
+    (hl : l = if isIn then i else o) (hwf : wfKeysL l = true) :
+    ∀ px ∈ nodesSlot (if isIn then Step.input else Step.output) l, (Entry.mk d c i o).getAt px.1 = some px.2 := by
+  match l with
+  | [] => intro px h; simp [nodesSlot] at h
+  | k :: rest =>
+    intro px h
+    rw [nodesSlot] at h
+    simp only [wfKeysL, Bool.and_eq_true] at hwf
+    obtain ⟨qy, hqy, rfl⟩ := List.mem_map.1 h
+    cases isIn with
+    | true =>
+      simp only [if_true] at hl ⊢
+      simp only [Entry.getAt, Entry.inp, ← hl, List.head?_cons, Option.bind_some]
+      exact getAt_nodes k hwf.1 qy hqy
+    | false =>
+      simp only [Bool.false_eq_true, if_false] at hl ⊢
+      simp only [Entry.getAt, Entry.out, ← hl, List.head?_cons, Option.bind_some]
+      exact getAt_nodes k hwf.1 qy hqy
+end
+
+/-! ### growth keeps every existing node where it is -/
+
+theorem addImplicit_d (b : Bool) (e : Entry) : (addImplicit b e).d = e.d := by
+  cases e; cases b <;> rfl
+
+theorem addImplicit_dir (b : Bool) (e : Entry) : (addImplicit b e).dir = e.dir := by
+  cases e; cases b <;> rfl
+
+theorem updateAt_d (b : Bool) (p : Path) (e : Entry) : (e.updateAt p (addImplicit b)).d = e.d := by
+  cases p with
+  | nil => exact addImplicit_d b e
+  | cons s p => cases s <;> cases e <;> rfl
+
+theorem find?_map_name (h : Entry → Entry) (hn : ∀ x, (h x).name = x.name) (k : String) (l : List Entry) :
+    (l.map h).find? (·.name == k) = (l.find? (·.name == k)).map h := by
+  induction l with
+  | nil => rfl
+  | cons a l ih =>
+    simp only [List.map_cons, List.find?_cons, hn]
+    cases (a.name == k) <;> simp [ih]
+
+theorem updateAt_addImplicit_getAt (b : Bool) : ∀ (p : Path) (e e0 : Entry), e.getAt p = some e0 →
+    (if b then e0.inp = [] else e0.out = []) →
+    ∀ (q : Path) (x : Entry), e.getAt q = some x →
+      ∃ x', (e.updateAt p (addImplicit b)).getAt q = some x' ∧ x'.d = x.d := by
+  intro p
+  induction p with
+  | nil =>
+    intro e e0 he he0 q x hx
+    simp only [Entry.getAt, Option.some.injEq] at he
+    subst he
+    simp only [Entry.updateAt]
+    cases q with
+    | nil =>
+      simp only [Entry.getAt, Option.some.injEq] at hx; subst hx
+      exact ⟨_, rfl, addImplicit_d b e⟩
+    | cons s q =>
+      cases e with
+      | mk d c i o =>
+        cases s with
+        | child k =>
+          refine ⟨x, ?_, rfl⟩
+          cases b <;> exact hx
+        | input =>
+          cases b with
+          | false => exact ⟨x, hx, rfl⟩
+          | true =>
+            simp only [if_true, Entry.inp] at he0
+            subst he0
+            simp [Entry.getAt, Entry.inp] at hx
+        | output =>
+          cases b with
+          | true => exact ⟨x, hx, rfl⟩
+          | false =>
+            simp only [Bool.false_eq_true, if_false, Entry.out] at he0
+            subst he0
+            simp [Entry.getAt, Entry.out] at hx
+  | cons s p ih =>
+    intro e e0 he he0 q x hx
+    cases e with
+    | mk d c i o =>
+      cases q with
+      | nil =>
+        simp only [Entry.getAt, Option.some.injEq] at hx; subst hx
+        exact ⟨_, rfl, updateAt_d b (s :: p) _⟩
+      | cons s' q =>
+        cases s with
+        | child k =>
+          simp only [Entry.updateAt]
+          cases s' with
+          | child k' =>
+            simp only [Entry.getAt, Entry.child?, Entry.dir] at he hx ⊢
+            rw [find?_map_name _ (by
+              intro y; by_cases hy : (y.name == k) = true
+              · rw [if_pos hy]; simp only [Entry.name, updateAt_d]
+              · rw [if_neg hy])]
+            cases hc1 : c.find? (·.name == k') with
+            | none => simp [hc1] at hx
+            | some c1 =>
+              simp only [hc1, Option.bind_some, Option.map_some] at hx ⊢
+              have hn1 : c1.name = k' := by simpa using List.find?_some hc1
+              by_cases hk : (c1.name == k) = true
+              · simp only [hk, if_true]
+                have hkk : k' = k := by rw [← hn1]; simpa using hk
+                subst hkk
+                simp only [hc1, Option.bind_some] at he
+                exact ih c1 e0 he he0 q x hx
+              · simp only [hk, Bool.false_eq_true, if_false]
+                exact ⟨x, hx, rfl⟩
+          | input => exact ⟨x, hx, rfl⟩
+          | output => exact ⟨x, hx, rfl⟩
+        | input =>
+          simp only [Entry.updateAt]
+          cases s' with
+          | child k' => exact ⟨x, hx, rfl⟩
+          | output => exact ⟨x, hx, rfl⟩
+          | input =>
+            simp only [Entry.getAt, Entry.inp] at he hx ⊢
+            cases i with
+            | nil => simp at hx
+            | cons c1 rest =>
+              simp only [List.head?_cons, Option.bind_some, List.map_cons] at he hx ⊢
+              exact ih c1 e0 he he0 q x hx
+        | output =>
+          simp only [Entry.updateAt]
+          cases s' with
+          | child k' => exact ⟨x, hx, rfl⟩
+          | input => exact ⟨x, hx, rfl⟩
+          | output =>
+            simp only [Entry.getAt, Entry.out] at he hx ⊢
+            cases o with
+            | nil => simp at hx
+            | cons c1 rest =>
+              simp only [List.head?_cons, Option.bind_some, List.map_cons] at he hx ⊢
+              exact ih c1 e0 he he0 q x hx
+
+theorem growStep_getAt {a b : Entry} (h : GrowStep a b) (q : Path) (x : Entry) (hx : a.getAt q = some x) :
+    ∃ x', b.getAt q = some x' ∧ x'.d = x.d := by
+  cases h with
+  | input p e hg _ hi => exact updateAt_addImplicit_getAt true p a e hg (by simpa using hi) q x hx
+  | output p e hg _ hi => exact updateAt_addImplicit_getAt false p a e hg (by simpa using hi) q x hx
+
+/-- Growth loses nothing and moves nothing: every location of the old tree is a location of the
+new one, with the same node data. -/
+theorem grown_getAt {a b : Entry} (h : Grown a b) : ∀ (q : Path) (x : Entry), a.getAt q = some x →
+    ∃ x', b.getAt q = some x' ∧ x'.d = x.d := by
+  induction h with
+  | refl e => intro q x hx; exact ⟨x, hx, rfl⟩
+  | step s _ ih =>
+    intro q x hx
+    obtain ⟨x1, h1, d1⟩ := growStep_getAt s q x hx
+    obtain ⟨x2, h2, d2⟩ := ih q x1 h1
+    exact ⟨x2, h2, d2.trans d1⟩
+
 end Goyang.Lemmas.Find
